@@ -3160,7 +3160,7 @@ def logical_not(x: ArrayOrScalar) -> Array | bool:
                                                           x.shape),
                        shape=x.shape,
                        dtype=np.dtype(np.bool_),
-                       bindings={"_in0": x},
+                       bindings=constantdict({"_in0": x}),
                        tags=_get_default_tags(),
                        non_equality_tags=_get_created_at_tag(),
                        axes=_get_default_axes(len(x.shape)),
